@@ -365,6 +365,17 @@ def row_independence(case):
       loss = np.asarray(m.train_loss(batch, out))
       require(loss.shape == (n,), 'model %s: train_loss is not one value per row' % name, [n], list(loss.shape),
               case=dict(case, rows=list(idxs)))
+      if n >= 2:
+        # one very confident row (logits scaled by 200) next to ordinary rows: the ordinary rows keep their own loss
+        sharp = np.array(out, copy=True)
+        sharp[0] = sharp[0] * 200.0
+        lsharp = np.asarray(m.train_loss(batch, sharp))
+        for r, i in enumerate(idxs):
+          if r == 0:
+            continue
+          require(np.isfinite(lsharp[r]) and abs(float(lsharp[r]) - single_loss[i]) <= 1e-4 * (1 + abs(single_loss[i])),
+                  'model %s: the training loss of a row changes when ANOTHER row of the batch has very large logits' % name,
+                  single_loss[i], float(lsharp[r]), case=dict(case, rows=list(idxs)))
       for r, i in enumerate(idxs):
         require(abs(float(loss[r]) - single_loss[i]) <= 1e-4 * (1 + abs(single_loss[i])), 'model %s: the training loss of a row '
                 'depends on the other rows in the batch' % name, single_loss[i], float(loss[r]), case=dict(case, rows=list(idxs)))
